@@ -145,7 +145,7 @@ Section Trust.
   Lemma source_key_notools t st : In t (r_targets r) ->
     source_key r st t = option_map key_of (gather (read r st) (iter_sources r t)).
   Proof.
-    intros Ht. unfold source_key. rewrite (Hnt t Ht). cbn [gather anon_ins map key_of].
+    intros Ht. unfold source_key. rewrite (hashed_tool_paths_all r t), (Hnt t Ht). cbn [gather anon_ins map key_of].
     destruct (gather (read r st) (iter_sources r t)) as [a|]; [|reflexivity]. cbn [option_map]. rewrite app_nil_r. reflexivity.
   Qed.
 
@@ -1031,6 +1031,8 @@ Proof.
     + destruct (outputs t) as [|o [|o2 rest]]; try discriminate. intros H. injection H as <-.
       cbn [map snd]. constructor; [eexists; reflexivity|constructor].
     + discriminate.
+    + destruct (outputs t) as [|o [|o2 rest]]; try discriminate. destruct (all_files _); [|discriminate].
+      intros H. injection H as <-. cbn [map snd]. constructor; [eexists; reflexivity|constructor].
   - discriminate.
   - destruct (outputs t) as [|o [|o2 rest]]; try discriminate. intros H. injection H as <-.
     cbn [map snd]. constructor; [eexists; reflexivity|constructor].
